@@ -12,8 +12,9 @@ package socks5
 //   C  the client            127.0.0.1:p   (same IP as the control connection)
 //   O  same host, other port 127.0.0.1:q
 //   S  a stranger            127.0.0.2:r
+//   T  a stranger            127.0.0.2:p   (other host, SAME port number as the client)
 // The explorer (vmc.Explore, unbounded DFS) enumerates every event sequence up to the
-// length bound over {C sends, O sends, S sends, a reply arrives from the mesh
+// length bound over {C sends, O sends, S sends, T sends, a reply arrives from the mesh
 // (WriteToClient)}, for every configuration {ASSOCIATE address 0.0.0.0:0, 127.0.0.1:0,
 // 127.0.0.1:p, 0.0.0.0:p} x {server bound to 127.0.0.1, 0.0.0.0} x {control connection
 // reports its peer as 127.0.0.1 (TCP), reports no address (WebSocket wsConn)}.
@@ -25,7 +26,8 @@ package socks5
 // non-blocking recvfrom on the three sender sockets (loopback delivery is synchronous).
 //
 // Oracle (exactly the statement; nothing is demanded about the client's own datagrams):
-//   * a datagram of S is never handed to RelayUDPDatagram, and S never receives a reply;
+//   * a datagram of S or T is never handed to RelayUDPDatagram, and S / T never receive a
+//     reply (a matching port number does not make another host the owner);
 //   * when the client declared its full address (127.0.0.1:p), a datagram of O is never
 //     relayed and O never receives a reply (without a declared port O cannot be told from C).
 
@@ -150,8 +152,10 @@ func (m *c22Mesh) snapshot() []string {
 // ---------------------------------------------------------------------------
 
 type c22Senders struct {
-	c, o, s *net.UDPConn
+	c, o, s, t *net.UDPConn
 }
+
+var c22Classes = []byte{'C', 'O', 'S', 'T'}
 
 func (x *c22Senders) byClass(cl byte) *net.UDPConn {
 	switch cl {
@@ -159,6 +163,8 @@ func (x *c22Senders) byClass(cl byte) *net.UDPConn {
 		return x.c
 	case 'O':
 		return x.o
+	case 'T':
+		return x.t
 	}
 	return x.s
 }
@@ -310,7 +316,7 @@ func c22Execute(x *c22Senders, cfg c22Config, events string) (steps []c22Step, e
 			}
 			runtime.Gosched()
 		}
-		for _, s := range []*net.UDPConn{x.c, x.o, x.s} {
+		for _, s := range []*net.UDPConn{x.c, x.o, x.s, x.t} {
 			for {
 				if _, ok := c22TryRecv(s); !ok {
 					break
@@ -339,7 +345,7 @@ func c22Execute(x *c22Senders, cfg c22Config, events string) (steps []c22Step, e
 		if a == nil {
 			return "-"
 		}
-		for _, cl := range []byte{'C', 'O', 'S'} {
+		for _, cl := range c22Classes {
 			l := x.byClass(cl).LocalAddr().(*net.UDPAddr)
 			if l.IP.Equal(a.IP) && l.Port == a.Port {
 				return string(cl)
@@ -352,7 +358,7 @@ func c22Execute(x *c22Senders, cfg c22Config, events string) (steps []c22Step, e
 	for i := 0; i < len(events); i++ {
 		st := c22Step{ev: events[i]}
 		switch events[i] {
-		case 'C', 'O', 'S':
+		case 'C', 'O', 'S', 'T':
 			payload := fmt.Sprintf("%c%d", events[i], i)
 			if _, err := x.byClass(events[i]).WriteToUDP(append(append([]byte(nil), hdr...), payload...), relayAddr); err != nil {
 				return nil, err
@@ -364,7 +370,7 @@ func c22Execute(x *c22Senders, cfg c22Config, events string) (steps []c22Step, e
 			if werr := assoc.WriteToClient(AddrTypeIPv4, []byte{8, 8, 8, 8}, 53, []byte(fmt.Sprintf("reply%d", i))); werr != nil {
 				st.werr = werr.Error()
 			}
-			for _, cl := range []byte{'C', 'O', 'S'} {
+			for _, cl := range c22Classes {
 				if _, ok := c22TryRecv(x.byClass(cl)); ok {
 					st.replyTo += string(cl)
 				}
@@ -397,7 +403,24 @@ func TestVerif_C22(t *testing.T) {
 		}
 		return c
 	}
-	x.c, x.o, x.s = mk("127.0.0.1"), mk("127.0.0.1"), mk("127.0.0.2")
+	x.o, x.s = mk("127.0.0.1"), mk("127.0.0.2")
+	// the client's socket and a stranger's socket on another address with the SAME port number
+	for try := 0; try < 100 && err == nil && x.t == nil; try++ {
+		c, e := net.ListenUDP("udp4", &net.UDPAddr{IP: net.IPv4(127, 0, 0, 1), Port: 0})
+		if e != nil {
+			err = e
+			break
+		}
+		tt, e := net.ListenUDP("udp4", &net.UDPAddr{IP: net.IPv4(127, 0, 0, 2), Port: c.LocalAddr().(*net.UDPAddr).Port})
+		if e != nil {
+			c.Close()
+			continue
+		}
+		x.c, x.t = c, tt
+	}
+	if err == nil && x.t == nil {
+		err = fmt.Errorf("could not bind 127.0.0.1:p and 127.0.0.2:p to the same port number")
+	}
 	if err != nil {
 		r.HarnessError("cannot create sender sockets: %v", err)
 		r.Finish()
@@ -406,16 +429,17 @@ func TestVerif_C22(t *testing.T) {
 	defer x.c.Close()
 	defer x.o.Close()
 	defer x.s.Close()
+	defer x.t.Close()
 	_ = os.Getpid
 
-	// length bound: base configurations (TCP control connection, server bound to loopback)
-	// get one more event than the others
-	L := vmc.Pick(r, 3, 5)
-	Lbase := L + 1
+	// length bound; in the thorough tier the base configurations (TCP control connection,
+	// server bound to loopback) get one more event than the others
+	L := vmc.Pick(r, 3, 4)
+	Lbase := vmc.Pick(r, 3, 5)
 	r.Info["max_events"] = L
 	r.Info["max_events_tcp_loopback"] = Lbase
 	states := map[string]bool{}
-	alphabet := "CSOR" // simplest counterexamples first: client, stranger, other port, reply
+	alphabet := "CSTOR" // simplest counterexamples first: client, stranger, stranger on the client's port number, other port, reply
 
 	evaluate := func(cfg c22Config, events string, replay any) {
 		steps, err := c22Execute(x, cfg, events)
@@ -430,14 +454,17 @@ func TestVerif_C22(t *testing.T) {
 		first := "-"
 		for i, st := range steps {
 			replay = c22Replay{Config: cfg, Events: events[:i+1]}
-			if first == "-" && (st.ev == 'C' || st.ev == 'O' || st.ev == 'S') {
+			if first == "-" && (st.ev == 'C' || st.ev == 'O' || st.ev == 'S' || st.ev == 'T') {
 				first = string(st.ev)
 			}
 			for _, p := range st.relayed {
 				cl := p[0]
 				relayedClasses[cl] = true
 				switch {
-				case cl == 'S':
+				case cl == 'T' && cfg.Declared == "ip+port":
+					r.Violate(fmt.Sprintf("C22/stranger-same-port-datagram-relayed/%s/%s-control", cfg.Declared, cfg.Control),
+						fmt.Sprintf("datagram %q from 127.0.0.2:<the client's port number> (another host) was handed to RelayUDPDatagram although the client declared 127.0.0.1:<port>; bind %s, control %s, events %q (step %d)", p, cfg.Bind, cfg.Control, events, i), replay)
+				case cl == 'S' || cl == 'T':
 					r.Violate(fmt.Sprintf("C22/stranger-datagram-relayed/%s/%s-control", cfg.Declared, cfg.Control),
 						fmt.Sprintf("datagram %q from 127.0.0.2 (not the control connection's host) was handed to RelayUDPDatagram; ASSOCIATE address %s, bind %s, control %s, events %q (step %d)", p, cfg.Declared, cfg.Bind, cfg.Control, events, i), replay)
 				case cl == 'O' && cfg.Declared == "ip+port":
@@ -446,7 +473,10 @@ func TestVerif_C22(t *testing.T) {
 				}
 			}
 			if st.ev == 'R' {
-				if strings.Contains(st.replyTo, "S") {
+				if strings.Contains(st.replyTo, "T") && cfg.Declared == "ip+port" {
+					r.Violate(fmt.Sprintf("C22/reply-to-stranger-same-port/%s/%s-control", cfg.Declared, cfg.Control),
+						fmt.Sprintf("the reply was delivered to 127.0.0.2:<the client's port number> (first sender %s, recorded client %s) although the client declared 127.0.0.1:<port>; bind %s, control %s, events %q (step %d)", first, st.actual, cfg.Bind, cfg.Control, events, i), replay)
+				} else if strings.ContainsAny(st.replyTo, "ST") {
 					r.Violate(fmt.Sprintf("C22/reply-to-stranger/%s/%s-control", cfg.Declared, cfg.Control),
 						fmt.Sprintf("the reply was delivered to 127.0.0.2 (first sender %s, recorded client %s); ASSOCIATE address %s, bind %s, control %s, events %q (step %d)", first, st.actual, cfg.Declared, cfg.Bind, cfg.Control, events, i), replay)
 				}
@@ -456,7 +486,7 @@ func TestVerif_C22(t *testing.T) {
 				}
 			}
 			rc := ""
-			for _, cl := range []byte{'C', 'O', 'S'} {
+			for _, cl := range c22Classes {
 				if relayedClasses[cl] {
 					rc += string(cl)
 				}
@@ -467,7 +497,7 @@ func TestVerif_C22(t *testing.T) {
 			}
 			r.Outcome(fmt.Sprintf("%c|relayed%d|reply:%s|%s|actual:%s", st.ev, len(st.relayed), st.replyTo, st.werr, st.actual))
 		}
-		if len(events) >= 2 && len(events) <= 3 && strings.ContainsAny(events, "SO") && strings.Contains(events, "R") {
+		if len(events) >= 2 && len(events) <= 3 && strings.ContainsAny(events, "STO") && strings.Contains(events, "R") {
 			var tr []string
 			for _, st := range steps {
 				tr = append(tr, fmt.Sprintf("%c relayed=%v replyTo=%q client=%s", st.ev, st.relayed, st.replyTo, st.actual))
